@@ -23,7 +23,6 @@ type RoundedCounter interface {
 
 type roundedCounter struct {
 	total uint64 //reflects the true count
-	value uint64 //reflects the rounded count
 
 	desc       *prometheus.Desc
 	labelPairs []*dto.LabelPair
@@ -32,9 +31,6 @@ type roundedCounter struct {
 // Implements the RoundedCounter interface
 func (c *roundedCounter) Inc() {
 	atomic.AddUint64(&c.total, 1)
-	if c.total > c.value {
-		atomic.AddUint64(&c.value, 8)
-	}
 }
 
 // Implements the prometheus.Metric interface
@@ -46,7 +42,9 @@ func (c *roundedCounter) Desc() *prometheus.Desc {
 func (c *roundedCounter) Write(m *dto.Metric) error {
 	m.Label = c.labelPairs
 
-	m.Counter = &dto.Counter{Value: proto.Float64(float64(c.value))}
+	// the true count rounded up to a multiple of 8
+	rounded := (atomic.LoadUint64(&c.total) + 7) / 8 * 8
+	m.Counter = &dto.Counter{Value: proto.Float64(float64(rounded))}
 	return nil
 }
 
